@@ -51,6 +51,13 @@ CHECKS["C11"] = dict(
     ref="2/C11",
 )
 
+CHECKS["C12"] = dict(
+    technique="boundary-log monitor, exhaustive over Unicode scalar values: strings observed at the protocol boundary vs the strings the generator intended",
+    text="Every Unicode scalar value (thorough: all 1,112,064; quick: U+0000-U+2FFF, encoding/escaping boundaries and 20,000 random ones) followed by each of 14 successor characters is embedded as static text, static attribute value and string literal inside a binding, spelt raw / as named, decimal or hex entity / as JS escape; the strings received by T and R.r on the real runtime must equal the intended ones code unit for code unit. All 2125 HTML5 named entities and every name position (tag, attribute, dataset, mark, event, generic, extra-attr, worklet, slot, wx:key, template name, object key, group key) are checked over their admissible alphabets.",
+    note="Trusted: the generator's spelling functions; Python's html5 entity table (committed as JSON). NUL is never spelt \\0 before a digit and astral characters never as surrogate escapes (documented limits).",
+    ref="2/C12",
+)
+
 NOT_YET = {}
 
 
